@@ -555,6 +555,9 @@ type DataInv struct {
 }
 
 type GlobalInv struct {
+	Label  string
+	Props  []string
+	Global string // the package-level variable the invariant is about ("" for the unchecked legacy form)
 	Src  string
 	E    Expr
 	Pkg  string
@@ -728,11 +731,36 @@ func (c *Contracts) ParseContractText(text, file, pkgPath string) error {
 			}
 			cur, curLemma = nil, nil
 		case "globalinv":
+			// globalinv [label props] <global> :: expr
+			gi := &GlobalInv{Pkg: pkgPath, Line: rc.line, File: file}
+			rest = strings.TrimSpace(rest)
+			if strings.HasPrefix(rest, "[") {
+				k := strings.Index(rest, "]")
+				if k < 0 {
+					return errf("globalinv: missing ]")
+				}
+				f := strings.Fields(rest[1:k])
+				if len(f) > 0 {
+					gi.Label = f[0]
+					gi.Props = f[1:]
+					if i := strings.Index(f[0], ":"); i > 0 {
+						gi.Props = append([]string{f[0][:i]}, gi.Props...)
+					}
+				}
+				rest = strings.TrimSpace(rest[k+1:])
+				k = strings.Index(rest, "::")
+				if k < 0 {
+					return errf("globalinv: expected <global> :: expr")
+				}
+				gi.Global = strings.TrimSpace(rest[:k])
+				rest = strings.TrimSpace(rest[k+2:])
+			}
 			e, err := parseExpr(rest)
 			if err != nil {
 				return errf("%v", err)
 			}
-			c.GInvs = append(c.GInvs, &GlobalInv{Src: rest, E: e, Pkg: pkgPath, Line: rc.line, File: file})
+			gi.Src, gi.E = rest, e
+			c.GInvs = append(c.GInvs, gi)
 		default:
 			if cur == nil && curLemma != nil && kw == "use" {
 				curLemma.Uses = append(curLemma.Uses, strings.Fields(rest)...)
